@@ -19,7 +19,13 @@ def run(ck):
         def hook(I, w, frame, site, key, args):
             w.mem[('G', 'kind')] = ('enum', ((kind, ()),))
             if kind in (0, 1):
-                w.mem[('G', 'lt')] = args[2]
+                lt_arg = args[2]
+                if lt_arg[0] == 'ref':
+                    # the helper takes the label type by reference: the ghost is a copy of the referenced place and learns what
+                    # later matches on that place establish (copy alias, see absint.refine_variant)
+                    w.alias[(('G', 'lt'), ())] = lt_arg[1]
+                    lt_arg = I.read(w, lt_arg[1])
+                w.mem[('G', 'lt')] = lt_arg
         return hook
     cfg = decap_cfg(f, {'call_hooks': {DEC + 'decap_complete': mark(0), DEC + 'decap_first': mark(1), DEC + 'decap_intermediate': mark(2), DEC + 'decap_end': mark(3)}})
     a = ck.analyse(DEC + 'decap', cfg, tag='c16')
